@@ -167,7 +167,7 @@ def merge_stats(stats):
 
 
 def write_replay(prop, seed, plan, hs, sig, violation, trace_digest, tier, original_ops, execs):
-    d = os.path.join(VERIF, "replays")
+    d = os.environ.get("VERIF_REPLAY_DIR") or os.path.join(VERIF, "replays")
     os.makedirs(d, exist_ok=True)
     path = os.path.join(d, "%s-%d-%d.json" % (prop, seed, plan["run"]))
     json.dump({
